@@ -45,6 +45,29 @@ Fixpoint set_nth {A} (i : nat) (x : A) (l : list A) : list A :=
   | y :: l', S i' => y :: set_nth i' x l'
   end.
 
+Fixpoint plug_tree (t : ctree) (pos : position) (a : atom) : ctree :=
+  match pos with
+  | [] => match t with TA _ => TA a | _ => t end
+  | i :: pos' =>
+      match t with
+      | TA _ => t
+      | TL xs =>
+          TL ((fix go (xs : list ctree) (i : nat) : list ctree :=
+                 match xs, i with
+                 | [], _ => []
+                 | x :: xs', 0 => plug_tree x pos' a :: xs'
+                 | x :: xs', S i' => x :: go xs' i'
+                 end) xs i)
+      | TR fs =>
+          TR ((fix go (fs : list (string * ctree)) (i : nat) : list (string * ctree) :=
+                 match fs, i with
+                 | [], _ => []
+                 | (k, x) :: fs', 0 => (k, plug_tree x pos' a) :: fs'
+                 | f :: fs', S i' => f :: go fs' i'
+                 end) fs i)
+      end
+  end.
+
 Definition plug (k : container) (pos : position) (a : atom) : container :=
   match k, pos with
   | KArr xs, [i] => KArr (set_nth i a xs)
@@ -58,6 +81,7 @@ Definition plug (k : container) (pos : position) (a : atom) : container :=
             | Some (name, _) => set_nth i (name, a) fs
             | None => fs
             end)
+  | KTree t, _ => KTree (plug_tree t pos a)
   | _, _ => k
   end.
 
